@@ -16,7 +16,7 @@ RULE = ("all_dags on every PDAG with acyclic directed part (p<=4 quick, p<=5 tho
         "weights, relabelled) and signed weight matrices. Oracle: brute-force enumeration of all orientations kept iff "
         "acyclic with identical v-structures (class table for p<=5), compared as sets of 0/1 patterns incl. 'each once'. "
         "Non-trivial = result has >=2 members, or is empty, or input has both a v-structure and an undirected/reversible "
-        "edge. Distinct = distinct input graph (+ variant).")
+        "edge. Distinct = distinct input graph (+ variant). Also: graphs relabelled into 9..12 labels, uint8/bool/int32/float32 presentations, PDAGs with 13-14 undirected edges, the unit chain plus extra edges with cancelling weights, returned stacks overwritten after use.")
 ASSUMPTIONS = [
     "oracle: harness/graphs.py brute force (all orientations, acyclic, same v-structures), class table self-checked against it on p<=4",
     "order and dtype of the returned stack are free; only the non-zero pattern of weighted inputs may matter",
